@@ -12,6 +12,7 @@ import Verif.Drv.RunSched
 import Verif.Drv.AsyncIo
 import Verif.Drv.ExecSched
 import Verif.Drv.Timeout
+import Verif.Drv.ExecCb
 
 partial def lineLoop (h : IO.FS.Stream) (out : IO.FS.Stream) (f : String → Option String) : IO Unit := do
   let line ← h.getLine
@@ -40,6 +41,7 @@ def main (args : List String) : IO UInt32 := do
   | ["c03mon"] => stateLoop stdin stdout Verif.Drv.PingSched.monLine none; return 0
   | ["chansched"] => stateLoop stdin stdout (Verif.Drv.ChanSched.stepLine Verif.Generated.Consts.MAX_EVENTS_CHECK) {}; return 0
   | ["timeout"] => lineLoop stdin stdout Verif.Drv.Timeout.step; return 0
+  | ["execcb"] => lineLoop stdin stdout Verif.Drv.ExecCb.step; return 0
   | ["runsched"] => stateLoop stdin stdout Verif.Drv.RunSched.stepLine {}; return 0
   | ["execsched"] => stateLoop stdin stdout (Verif.Drv.ExecSched.stepLine Verif.Generated.Consts.EXECUTOR_BATCH) {}; return 0
   | ["asyncio"] => stateLoop stdin stdout Verif.Drv.AsyncIo.stepLine {}; return 0
